@@ -11,6 +11,8 @@ u, d (ubar, dbar) replaced by (Z u+(A-Z) d)/A and (Z d+(A-Z) u)/A.
 from __future__ import annotations
 
 import copy
+
+import numpy as np
 from fractions import Fraction as Fr
 
 from pvc.core import ob_eval, guarded, Ob, PROVED, REFUTED
@@ -112,6 +114,35 @@ def sec_apply_isospin(rep):
 
     rep.cases += 1
     rep.check("C12/apply_isospin/post/proton-neutron-isoscalar", case_named, sy)
+
+
+def sec_apply_isospin_number_types(rep):
+    """Z and A arrive as whatever the run card holds: Python ints (a YAML card with `Z: 26, A: 56`),
+    floats, numpy scalars.  The rotation is the same map for all of them and never an internal error
+    (the symbolic contract above runs on real-valued symbols and cannot see number-type effects)."""
+    import yadism.coefficient_functions as cf
+    from yadism.coefficient_functions.kernels import Kernel
+
+    base = {1: 0.3, -1: 0.7, 2: 1.1, -2: 0.2, 3: 0.5, 21: 0.9}
+    for z, a in ((1, 2), (26, 56), (0, 1), (1, 1), (82, 208)):
+        variants = {"int": (int(z), int(a)), "float": (float(z), float(a)), "numpy int64": (np.int64(z), np.int64(a)), "numpy float64": (np.float64(z), np.float64(a)), "mixed": (int(z), float(a))}
+        ref = None
+        for nm, (zz, aa) in variants.items():
+            rep.cases += 1
+            k = Kernel(dict(base), object())
+            try:
+                cf.Combiner.apply_isospin([k], zz, aa)
+                got = {p: float(w) for p, w in k.partons.items()}
+                exp = dict(base)
+                for sgn in (1, -1):
+                    d_, u_ = base.get(sgn * 1, 0.0), base.get(sgn * 2, 0.0)
+                    exp[sgn * 1] = (z * d_ + (a - z) * u_) / a
+                    exp[sgn * 2] = ((a - z) * d_ + z * u_) / a
+                ok = set(got) == set(exp) and all(abs(got[p] - exp[p]) <= 1e-14 for p in exp)
+                detail = "" if ok else f"got {got} expected {exp}"
+            except Exception as e:  # noqa
+                ok, detail = False, f"{type(e).__name__}: {e}"
+            rep.add(ob_eval(f"C12/apply_isospin/number-types/Z={z},A={a} given as {nm}", ok, detail=detail, inputs={} if ok else {"Z": repr(zz), "A": repr(aa), "observed": detail}))
 
 
 def sec_lattice(rep, tier):
@@ -298,7 +329,7 @@ def run(rep, tier, seed, only=None):
         "the contraction lemma is stated per kernel with uninterpreted parton values f(pid); linearity of apply_pdf (C17) lifts it to operators",
     )
     rep.stub("CouplingConstants -> WStub", "eko nf_default -> enumerated nf")
-    for nm, f in (("apply_isospin", sec_apply_isospin), ("lattice", lambda r: sec_lattice(r, tier)), ("collect_elems", sec_collect_elems), ("update_target", sec_update_target)):
+    for nm, f in (("apply_isospin", sec_apply_isospin), ("numbertypes", sec_apply_isospin_number_types), ("lattice", lambda r: sec_lattice(r, tier)), ("collect_elems", sec_collect_elems), ("update_target", sec_update_target)):
         if only and only not in nm:
             continue
         rep.add(guarded(f"C12/{nm}", lambda f=f: (f(rep), [])[1]))
